@@ -331,12 +331,16 @@ func Run(f interface{}, n int, x Vector, args ...interface{}) (Vector, int64, er
   if proxop.Value != nil && jitUpdate.Value != nil {
     return x, seed.Value, fmt.Errorf("invalid arguments")
   }
-  // rescale lambda
+  // rescale lambda (and hand the caller's object back as it was passed)
   if proxop.Value != nil {
-    proxop.Value.SetLambda(gamma.Value*proxop.Value.GetLambda()/float64(n))
+    lambda := proxop.Value.GetLambda()
+    defer proxop.Value.SetLambda(lambda)
+    proxop.Value.SetLambda(gamma.Value*lambda/float64(n))
   }
   if jitUpdate.Value != nil {
-    jitUpdate.Value.SetLambda(gamma.Value*jitUpdate.Value.GetLambda()/float64(n))
+    lambda := jitUpdate.Value.GetLambda()
+    defer jitUpdate.Value.SetLambda(lambda)
+    jitUpdate.Value.SetLambda(gamma.Value*lambda/float64(n))
   }
   if jitUpdate.Value != nil {
     switch g := f.(type) {
